@@ -4,6 +4,7 @@ import (
 	"fmt"
 	"go/ast"
 	"go/token"
+	"go/types"
 	"sort"
 	"strings"
 
@@ -266,6 +267,42 @@ func checkC08(c *Check) {
 
 // R8.2/R8.3: the constant-parameter analysis.
 func checkC08Annotator(c *Check, L *Loaded) {
+	// R8.3b: the analysis looks at every call and every assignment of a body only if its visitor never prunes the
+	// traversal below a node that can contain further expressions: the Visit methods for expressions and statements
+	// return ast.VisitRecurse on every path (VisitFuncDecl manages the descent into bodies itself and is judged by R8.3)
+	r3b := c.Rule("R8.3b", "the constant-parameter analysis never prunes the traversal below a call or an assignment", 2)
+	L.ForEachFunc([]string{"src/ast/annotators"}, func(fi *FuncInfo) {
+		name := canonName(fi.Obj)
+		sig := fi.Obj.Type().(*types.Signature)
+		if sig.Recv() == nil || !strings.HasPrefix(name, "Visit") || name == "VisitFuncDecl" || sig.Results().Len() != 1 {
+			return
+		}
+		if !strings.HasSuffix(sig.Recv().Type().String(), "ConstFuncParamAnnotator") || !strings.HasSuffix(sig.Results().At(0).Type().String(), "ast.VisitResult") {
+			return
+		}
+		info := fi.Pkg.TypesInfo
+		bad := ""
+		ast.Inspect(fi.Decl.Body, func(n ast.Node) bool {
+			if _, isLit := n.(*ast.FuncLit); isLit {
+				return false
+			}
+			ret, ok := n.(*ast.ReturnStmt)
+			if !ok || len(ret.Results) != 1 {
+				return true
+			}
+			okRet := false
+			if sel, ok := ast.Unparen(ret.Results[0]).(*ast.SelectorExpr); ok {
+				if cst, ok := info.Uses[sel.Sel].(*types.Const); ok && cst.Name() == "VisitRecurse" {
+					okRet = true
+				}
+			}
+			if !okRet {
+				bad = L.Src(ret.Results[0])
+			}
+			return true
+		})
+		r3b.Decide(bad == "", L.QName(fi.Obj)+"|descends into children", fi.Decl.Pos(), "returns ast.VisitRecurse on every path", "returns "+bad+" on some path: calls and assignments nested below this node are not analysed, a parameter that is changed there stays marked constant and is borrowed at -O2 (use after free / changes visible in the caller)")
+	})
 	r2 := c.Rule("R8.2", "the constant-parameter analysis finds the parameter at the root of every assignable shape", 13)
 	in := NewInterp(L)
 	installDDPTypesModels(in)
@@ -498,120 +535,62 @@ func checkC08Calls(c *Check, L *Loaded) {
 	r5 := c.Rule("R8.5", "a Referenz parameter receives the caller's storage itself", 3)
 	checkC08PartReference(c, L, r4)
 	T := &DT{Kind: "TEXT"}
-	for _, level := range []int{0, 1, 2} {
-		in, mk := newGeneratorInterp(L)
-		cfg := callCfg{level: level, konst: true, ret: &DT{Kind: "ZAHL"}}
-		decl := newObj("ast.FuncDecl")
-		mkParam := func(name string, ref bool) *Obj {
-			pn := newObj("token.Token")
-			pn.set("Literal", StrV(name))
-			pt := newObj("ddptypes.ParameterType")
-			pt.set("Type", TypeV{T})
-			pt.set("IsReference", boolV(ref))
-			p := newObj("ast.ParameterInfo")
-			p.set("Name", pn)
-			p.set("Type", pt)
-			return p
-		}
-		decl.set("Parameters", SliceV{Elems: []Val{mkParam("a", false), mkParam("b", true)}})
-		decl.set("ReturnType", TypeV{cfg.ret})
-		callModels(in, &cfg, decl)
-		in.Models["ast.(*Ast).GetMetadataByKind"] = func(in *Interp, pkg *packages.Package, call *ast.CallExpr, recv Val, args []Val) (Val, bool) {
-			meta := newObj("annotators.ConstFuncParamMeta")
-			meta.set("IsConst", MapV{Keys: []Val{StrV("a"), StrV("b")}, Vals: []Val{boolV(true), boolV(false)}})
-			return TupleV{meta, boolV(true)}, true
-		}
-		storage := &IRVal{Op: "operand", Src: "x", Class: "ptr", Elem: toGen(T)}
-		xdecl := newObj("ast.VarDecl")
-		xdecl.set("Type", TypeV{T})
-		prevEval := in.Models["compiler.(*compiler).evaluate"]
-		in.Models["compiler.(*compiler).evaluate"] = func(in *Interp, pkg *packages.Package, call *ast.CallExpr, recv Val, args []Val) (Val, bool) {
-			v, h := prevEval(in, pkg, call, recv, args)
-			if n, ok := args[0].(*Obj); ok {
-				if d, ok := n.get("Declaration").(*Obj); ok && d == xdecl {
-					if tv, ok := v.(TupleV); ok && len(tv) == 3 {
-						return TupleV{storage, tv[1], boolV(false)}, h
-					}
-				}
+	for _, refFirst := range []bool{false, true} {
+		for _, level := range []int{0, 1, 2} {
+			order := "f(x, x): value parameter judged constant, Referenz parameter"
+			if refFirst {
+				order = "f(x, x): Referenz parameter, then value parameter judged constant"
 			}
-			return v, h
-		}
-		in.Models["compiler.(*scope).lookupVar"] = func(in *Interp, pkg *packages.Package, call *ast.CallExpr, recv Val, args []Val) (Val, bool) {
-			w := newObj("varwrapper")
-			w.set("val", storage)
-			w.set("typ", toGen(T))
-			w.set("isRef", boolV(false))
-			return w, true
-		}
-		var aliased, refIsStorage, decided bool
-		runs := 0
-		in.RunAll(64, func() {
-			cobj := mk()
-			cobj.set("optimizationLevel", ConstV{V: constantInt(level), T: intType()})
-			fw := newObj("funcWrapper")
-			fw.set("funcDecl", decl)
-			fw.set("irFunc", &IRFuncV{Name: "callee"})
-			cobj.set("functions", MapV{Keys: []Val{StrV("f")}, Vals: []Val{fw}})
-			e := newObj("ast.FuncCall")
-			e.set("Func", decl)
-			mkArg := func() *Obj {
-				a := exprNode("x", T)
-				a.Kind = "ast.Ident"
-				a.set("Declaration", xdecl)
-				return a
+			in, mk := newGeneratorInterp(L)
+			cfg := callCfg{level: level, konst: true, ret: &DT{Kind: "ZAHL"}}
+			decl := newObj("ast.FuncDecl")
+			mkParam := func(name string, ref bool) *Obj {
+				pn := newObj("token.Token")
+				pn.set("Literal", StrV(name))
+				pt := newObj("ddptypes.ParameterType")
+				pt.set("Type", TypeV{T})
+				pt.set("IsReference", boolV(ref))
+				p := newObj("ast.ParameterInfo")
+				p.set("Name", pn)
+				p.set("Type", pt)
+				return p
 			}
-			e.set("Args", MapV{Keys: []Val{StrV("a"), StrV("b")}, Vals: []Val{mkArg(), mkArg()}})
-			in.CallFunc(L.Fn("src/compiler.(*compiler).VisitFuncCall"), cobj, []Val{e})
-			for _, ev := range in.Events {
-				if ev.Kind == "cerr" || ev.Kind == "panic" {
-					return
-				}
+			if refFirst {
+				decl.set("Parameters", SliceV{Elems: []Val{mkParam("b", true), mkParam("a", false)}})
+			} else {
+				decl.set("Parameters", SliceV{Elems: []Val{mkParam("a", false), mkParam("b", true)}})
 			}
-			for _, ev := range in.Events {
-				if ev.Kind == "call" && ev.Msg == "callee" && len(ev.Data) == 3 {
-					runs++
-					decided = true
-					strip := func(v Val) *IRVal {
-						iv, _ := v.(*IRVal)
-						for iv != nil && iv.Op == "bitcast" && len(iv.Args) == 1 {
-							iv = iv.Args[0]
+			decl.set("ReturnType", TypeV{cfg.ret})
+			callModels(in, &cfg, decl)
+			in.Models["ast.(*Ast).GetMetadataByKind"] = func(in *Interp, pkg *packages.Package, call *ast.CallExpr, recv Val, args []Val) (Val, bool) {
+				meta := newObj("annotators.ConstFuncParamMeta")
+				meta.set("IsConst", MapV{Keys: []Val{StrV("a"), StrV("b")}, Vals: []Val{boolV(true), boolV(false)}})
+				return TupleV{meta, boolV(true)}, true
+			}
+			storage := &IRVal{Op: "operand", Src: "x", Class: "ptr", Elem: toGen(T)}
+			xdecl := newObj("ast.VarDecl")
+			xdecl.set("Type", TypeV{T})
+			prevEval := in.Models["compiler.(*compiler).evaluate"]
+			in.Models["compiler.(*compiler).evaluate"] = func(in *Interp, pkg *packages.Package, call *ast.CallExpr, recv Val, args []Val) (Val, bool) {
+				v, h := prevEval(in, pkg, call, recv, args)
+				if n, ok := args[0].(*Obj); ok {
+					if d, ok := n.get("Declaration").(*Obj); ok && d == xdecl {
+						if tv, ok := v.(TupleV); ok && len(tv) == 3 {
+							return TupleV{storage, tv[1], boolV(false)}, h
 						}
-						return iv
-					}
-					av, bv := strip(ev.Data[1]), strip(ev.Data[2])
-					if bv == storage {
-						refIsStorage = true
-					}
-					if av == storage && bv == storage {
-						aliased = true
 					}
 				}
+				return v, h
 			}
-		})
-		k4 := fmt.Sprintf("compiler.(*compiler).VisitFuncCall|-O%d f(x, x): value parameter judged constant, Referenz parameter", level)
-		if !decided || runs == 0 {
-			r4.Und(k4, token.NoPos, "call not observed")
-			r5.Und(k4, token.NoPos, "call not observed")
-			continue
-		}
-		// a global variable passed for the constant value parameter (the callee may change any global)
-		{
-			xdecl.set("IsGlobal", boolV(true))
-			other := &IRVal{Op: "operand", Src: "y", Class: "ptr", Elem: toGen(T)}
-			ydecl := newObj("ast.VarDecl")
-			ydecl.set("Type", TypeV{T})
-			ydecl.set("IsGlobal", boolV(false))
-			borrowedGlobal, seen := false, false
 			in.Models["compiler.(*scope).lookupVar"] = func(in *Interp, pkg *packages.Package, call *ast.CallExpr, recv Val, args []Val) (Val, bool) {
 				w := newObj("varwrapper")
 				w.set("val", storage)
-				if d, ok := args[0].(*Obj); ok && d == ydecl {
-					w.set("val", other)
-				}
 				w.set("typ", toGen(T))
 				w.set("isRef", boolV(false))
 				return w, true
 			}
+			var aliased, refIsStorage, decided bool
+			runs := 0
 			in.RunAll(64, func() {
 				cobj := mk()
 				cobj.set("optimizationLevel", ConstV{V: constantInt(level), T: intType()})
@@ -621,13 +600,13 @@ func checkC08Calls(c *Check, L *Loaded) {
 				cobj.set("functions", MapV{Keys: []Val{StrV("f")}, Vals: []Val{fw}})
 				e := newObj("ast.FuncCall")
 				e.set("Func", decl)
-				ax := exprNode("x", T)
-				ax.Kind = "ast.Ident"
-				ax.set("Declaration", xdecl)
-				ay := exprNode("y", T)
-				ay.Kind = "ast.Ident"
-				ay.set("Declaration", ydecl)
-				e.set("Args", MapV{Keys: []Val{StrV("a"), StrV("b")}, Vals: []Val{ax, ay}})
+				mkArg := func() *Obj {
+					a := exprNode("x", T)
+					a.Kind = "ast.Ident"
+					a.set("Declaration", xdecl)
+					return a
+				}
+				e.set("Args", MapV{Keys: []Val{StrV("a"), StrV("b")}, Vals: []Val{mkArg(), mkArg()}})
 				in.CallFunc(L.Fn("src/compiler.(*compiler).VisitFuncCall"), cobj, []Val{e})
 				for _, ev := range in.Events {
 					if ev.Kind == "cerr" || ev.Kind == "panic" {
@@ -636,23 +615,101 @@ func checkC08Calls(c *Check, L *Loaded) {
 				}
 				for _, ev := range in.Events {
 					if ev.Kind == "call" && ev.Msg == "callee" && len(ev.Data) == 3 {
-						seen = true
-						if av, ok := ev.Data[1].(*IRVal); ok && av == storage {
-							borrowedGlobal = true
+						runs++
+						decided = true
+						strip := func(v Val) *IRVal {
+							iv, _ := v.(*IRVal)
+							for iv != nil && iv.Op == "bitcast" && len(iv.Args) == 1 {
+								iv = iv.Args[0]
+							}
+							return iv
+						}
+						av, bv := strip(ev.Data[1]), strip(ev.Data[2])
+						if refFirst {
+							av, bv = bv, av
+						}
+						if bv == storage {
+							refIsStorage = true
+						}
+						if av == storage && bv == storage {
+							aliased = true
 						}
 					}
 				}
 			})
-			kg := fmt.Sprintf("compiler.(*compiler).VisitFuncCall|-O%d f(g, y): g a global variable, value parameter judged constant", level)
-			if !seen {
-				r4.Und(kg, token.NoPos, "call not observed")
-			} else {
-				r4.Decide(!borrowedGlobal, kg, token.NoPos, "the value parameter receives its own copy", "a global variable is passed for a value parameter without a copy: a callee that changes the global (directly or through another function) changes or releases what its parameter points to")
+			k4 := fmt.Sprintf("compiler.(*compiler).VisitFuncCall|-O%d %s", level, order)
+			if !decided || runs == 0 {
+				r4.Und(k4, token.NoPos, "call not observed")
+				r5.Und(k4, token.NoPos, "call not observed")
+				continue
 			}
-			xdecl.set("IsGlobal", Unk{"IsGlobal"})
+			// a global variable passed for the constant value parameter (the callee may change any global)
+			{
+				xdecl.set("IsGlobal", boolV(true))
+				other := &IRVal{Op: "operand", Src: "y", Class: "ptr", Elem: toGen(T)}
+				ydecl := newObj("ast.VarDecl")
+				ydecl.set("Type", TypeV{T})
+				ydecl.set("IsGlobal", boolV(false))
+				borrowedGlobal, seen := false, false
+				in.Models["compiler.(*scope).lookupVar"] = func(in *Interp, pkg *packages.Package, call *ast.CallExpr, recv Val, args []Val) (Val, bool) {
+					w := newObj("varwrapper")
+					w.set("val", storage)
+					if d, ok := args[0].(*Obj); ok && d == ydecl {
+						w.set("val", other)
+					}
+					w.set("typ", toGen(T))
+					w.set("isRef", boolV(false))
+					return w, true
+				}
+				in.RunAll(64, func() {
+					cobj := mk()
+					cobj.set("optimizationLevel", ConstV{V: constantInt(level), T: intType()})
+					fw := newObj("funcWrapper")
+					fw.set("funcDecl", decl)
+					fw.set("irFunc", &IRFuncV{Name: "callee"})
+					cobj.set("functions", MapV{Keys: []Val{StrV("f")}, Vals: []Val{fw}})
+					e := newObj("ast.FuncCall")
+					e.set("Func", decl)
+					ax := exprNode("x", T)
+					ax.Kind = "ast.Ident"
+					ax.set("Declaration", xdecl)
+					ay := exprNode("y", T)
+					ay.Kind = "ast.Ident"
+					ay.set("Declaration", ydecl)
+					e.set("Args", MapV{Keys: []Val{StrV("a"), StrV("b")}, Vals: []Val{ax, ay}})
+					in.CallFunc(L.Fn("src/compiler.(*compiler).VisitFuncCall"), cobj, []Val{e})
+					for _, ev := range in.Events {
+						if ev.Kind == "cerr" || ev.Kind == "panic" {
+							return
+						}
+					}
+					for _, ev := range in.Events {
+						if ev.Kind == "call" && ev.Msg == "callee" && len(ev.Data) == 3 {
+							seen = true
+							vi := 1
+							if refFirst {
+								vi = 2
+							}
+							if av, ok := ev.Data[vi].(*IRVal); ok && av == storage {
+								borrowedGlobal = true
+							}
+						}
+					}
+				})
+				kg := fmt.Sprintf("compiler.(*compiler).VisitFuncCall|-O%d f(g, y): g a global variable, value parameter judged constant", level)
+				if refFirst {
+					kg += " (Referenz parameter first)"
+				}
+				if !seen {
+					r4.Und(kg, token.NoPos, "call not observed")
+				} else {
+					r4.Decide(!borrowedGlobal, kg, token.NoPos, "the value parameter receives its own copy", "a global variable is passed for a value parameter without a copy: a callee that changes the global (directly or through another function) changes or releases what its parameter points to")
+				}
+				xdecl.set("IsGlobal", Unk{"IsGlobal"})
+			}
+			r4.Decide(!aliased, k4, token.NoPos, "the value parameter receives its own copy", "the callee receives the caller's variable both as the borrowed value of a parameter it treats as constant and as a Referenz it may assign to: assigning through the Referenz releases the block the value parameter still points to (use after free), and the value parameter observes the change")
+			r5.Decide(refIsStorage, k4, token.NoPos, "the Referenz parameter is bound to the variable's storage", "the Referenz parameter does not receive the caller's storage: changes made by the callee are not visible to the caller")
 		}
-		r4.Decide(!aliased, k4, token.NoPos, "the value parameter receives its own copy", "the callee receives the caller's variable both as the borrowed value of a parameter it treats as constant and as a Referenz it may assign to: assigning through the Referenz releases the block the value parameter still points to (use after free), and the value parameter observes the change")
-		r5.Decide(refIsStorage, k4, token.NoPos, "the Referenz parameter is bound to the variable's storage", "the Referenz parameter does not receive the caller's storage: changes made by the callee are not visible to the caller")
 	}
 }
 
